@@ -137,7 +137,26 @@ pub fn hll_roundtrip(ctx: &Ctx, s: &HllSketch, mk: &dyn Fn() -> Value) {
     match catch(|| d.serialize()) {
         Ok(img2) => {
             if img2 != img {
-                ctx.violation(&format!("hll{t}.roundtrip.reserialize.mode{}", st.mode), "serialize(deserialize(serialize(s))) is not byte-identical", with_image(mk, &img));
+                // The order of the Hll4 aux list (and of a coupon table) is the iteration order of
+                // a hash table, which depends on the insertion history: that part of the layout
+                // is not canonical, so there the two images must encode the same state
+                // (everything equal once the aux list / coupon list is sorted), not the same bytes.
+                let norm = |b: &[u8]| {
+                    crate::spec_hll::decode(b).ok().map(|mut im| {
+                        match &mut im.body {
+                            crate::spec_hll::HllBody::Array { aux, .. } => aux.sort_unstable(),
+                            crate::spec_hll::HllBody::List { coupons } | crate::spec_hll::HllBody::Set { coupons } => coupons.sort_unstable(),
+                        }
+                        im
+                    })
+                };
+                let same_state = match (norm(&img), norm(&img2)) {
+                    (Some(a), Some(b)) => a == b,
+                    _ => false,
+                };
+                if !same_state || img2.len() != img.len() {
+                    ctx.violation(&format!("hll{t}.roundtrip.reserialize.mode{}", st.mode), "serialize(deserialize(serialize(s))) encodes a different state (beyond the order of the aux / coupon list)", with_image(mk, &img));
+                }
             }
         }
         Err(p) => {
